@@ -218,6 +218,50 @@ def run(rep: common.Reporter, tier: str, prop: str = 'C17') -> dict:
             'sample': {'text': traces[0]['text'], 'events': traces[0]['events'][:2]} if traces else None}
 
 
+def refusal_part(rep: common.Reporter, tier: str) -> dict:
+    """C19: assigning spacing TOKENS that still live elsewhere (raw_spacing_x = other.raw_spacing_y without a
+    copy) must be refused and leave the document exactly as it was."""
+    docs, r = doclib.layouts(max_lines=3, accepted_only=True)
+    rng = random.Random(common.seed())
+    docs = rng.sample(docs, min(len(docs), 300))
+    n = 0
+    for d in docs:
+        text = doclib.render(d, rng.randrange(12))
+        try:
+            f = tree.parse(text)
+        except Exception:  # noqa: BLE001
+            continue
+        nodes = [m for p, m in tree.walk(f) if isinstance(m, SpacingAccessorsMixin) and m is not f]
+        donors = [(m, side) for m in nodes for side in ('before', 'after') if getattr(m, 'raw_spacing_' + side)]
+        targets = [(m, side) for m in nodes for side in ('before', 'after')]
+        if not donors or not targets:
+            continue
+        for _ in range(6):
+            (dm, ds), (tm, ts_) = rng.choice(donors), rng.choice(targets)
+            toks = tuple(getattr(dm, 'raw_spacing_' + ds))
+            cur = tuple(getattr(tm, 'raw_spacing_' + ts_))
+            if cur and any(a is b for a in toks for b in cur):
+                continue            # assigning a run to itself is not a refusal case
+            before = [(id(t), t.raw_text) for t in f.token_store]
+            try:
+                setattr(tm, 'raw_spacing_' + ts_, toks)
+                exc = ''
+            except ValueError:
+                exc = 'ValueError'
+            except Exception as e:  # noqa: BLE001
+                exc = type(e).__name__
+            n += 1
+            after = [(id(t), t.raw_text) for t in f.token_store]
+            if exc != 'ValueError':
+                rep.violation('C19/spacing/attached-tokens-accepted', {'what': f'spacing tokens that live elsewhere were accepted ({exc or "no exception"}); '
+                                                                              f'text {text!r} -> {tree.text_of(f)!r}'})
+                break
+            if after != before:
+                rep.violation('C19/spacing/refused-call-changed-document', {'what': f'refused spacing assignment changed the document: {text!r} -> {tree.text_of(f)!r}'})
+                break
+    return {'states': r.distinct, 'transitions': r.generated, 'behaviours': n}
+
+
 def main(prop: str, tier: str) -> int:
     rep = common.Reporter('C17', tier)
     p = run(rep, tier)
